@@ -221,7 +221,7 @@ func rtTreeBounded(a *aggregator, v *rtView) {
 		bad = append(bad, v.in.srcPos(e.Pos()))
 		return true
 	})
-	a.Decide(len(bad) == 0 && n >= 4, "R-tree-bounded", "Init/reads of tree.tree", cfg, v.in.srcPos(fd.Pos()),
+	a.Decide(len(bad) == 0 && n >= 2, "R-tree-bounded", "Init/reads of tree.tree", cfg, v.in.srcPos(fd.Pos()),
 		fmt.Sprintf("%d use(s) of tree.tree: each is a write, a slice with upper bound tokenIndex, or the index tokenIndex-1", n),
 		fmt.Sprintf("tree.tree is read without the tokenIndex bound at %s (of %d uses): tokens left by an earlier parse beyond tokenIndex become visible", strings.Join(bad, ", "), n))
 }
@@ -257,8 +257,19 @@ func rtSentinel(a *aggregator, v *rtView) {
 		u, ok := x.(*ssa.UnOp)
 		return ok && u.Op == token.MUL && v.isRecvField(u.X, "buffer")
 	}
-	// abstract state along each acyclic path
-	type state struct{ fromBuffer, lastIsEnd, capSynced, capAssigned bool }
+	// abstract state along each acyclic path, for the two places the runes live in:
+	// the parser's field (F) and the variable captured by the rule functions (C)
+	type loc struct{ fromBuffer, lastIsEnd bool }
+	isLoadCap := func(x ssa.Value) bool { return v.isLoadOfVar(x, "buffer") }
+	whichLoad := func(x ssa.Value) int { // 0 F, 1 C, -1 neither
+		if isLoadPBuf(x) {
+			return 0
+		}
+		if isLoadCap(x) {
+			return 1
+		}
+		return -1
+	}
 	var rets []*ssa.BasicBlock
 	instrsOf(reset, func(in ssa.Instruction) {
 		if _, ok := in.(*ssa.Return); ok {
@@ -275,43 +286,54 @@ func rtSentinel(a *aggregator, v *rtView) {
 		}
 		for _, p := range paths {
 			nPaths++
-			st := state{}
+			var st [2]loc
+			assigned := [2]bool{}
 			for bi, b := range p.Blocks {
 				for _, in := range b.Instrs {
 					switch x := in.(type) {
 					case *ssa.Store:
+						dst := -1
 						if v.isRecvField(x.Addr, "buffer") {
-							st.capSynced = false
-							switch val := x.Val.(type) {
-							case *ssa.Convert:
-								// []rune(p.Buffer)
-								if u, ok := val.X.(*ssa.UnOp); ok && v.isRecvField(u.X, "Buffer") {
-									st.fromBuffer, st.lastIsEnd = true, false
-								} else {
-									st.fromBuffer, st.lastIsEnd = false, false
-								}
-							case *ssa.Call:
-								if b, ok := val.Call.Value.(*ssa.Builtin); ok && b.Name() == "append" && len(val.Call.Args) == 2 && isLoadPBuf(val.Call.Args[0]) && appendsEnd(val.Call.Args[1], isEnd) {
-									st.lastIsEnd = true
-								} else {
-									st.fromBuffer, st.lastIsEnd = false, false
-								}
-							default:
-								st.fromBuffer, st.lastIsEnd = false, false
-							}
+							dst = 0
+						} else if n, whole := v.varOf(x.Addr); n == "buffer" && whole {
+							dst = 1
 						}
-						if n, whole := v.varOf(x.Addr); n == "buffer" && whole {
-							st.capAssigned = true
-							st.capSynced = isLoadPBuf(x.Val)
+						if dst < 0 {
+							continue
+						}
+						assigned[dst] = true
+						switch val := x.Val.(type) {
+						case *ssa.Convert:
+							// []rune(p.Buffer)
+							if u, ok := val.X.(*ssa.UnOp); ok && v.isRecvField(u.X, "Buffer") {
+								st[dst] = loc{true, false}
+							} else {
+								st[dst] = loc{}
+							}
+						case *ssa.Call:
+							if bi2, ok := val.Call.Value.(*ssa.Builtin); ok && bi2.Name() == "append" && len(val.Call.Args) == 2 && whichLoad(val.Call.Args[0]) >= 0 && appendsEnd(val.Call.Args[1], isEnd) {
+								src := st[whichLoad(val.Call.Args[0])]
+								st[dst] = loc{src.fromBuffer, true}
+							} else {
+								st[dst] = loc{}
+							}
+						default:
+							if w := whichLoad(x.Val); w >= 0 {
+								st[dst] = st[w] // a copy of the other place
+							} else {
+								st[dst] = loc{}
+							}
 						}
 					case *ssa.If:
 						if bi+1 < len(p.Blocks) {
 							truth := b.Succs[0] == p.Blocks[bi+1]
-							// p.buffer[len(p.buffer)-1] != endSymbol  (false edge => last is end)
+							// X[len(X)-1] != endSymbol  (false edge => last is end), X a load of F or C
 							if bo, ok := x.Cond.(*ssa.BinOp); ok && (bo.Op == token.NEQ || bo.Op == token.EQL) {
-								if isLastElemLoad(bo.X, isLoadPBuf) && isEnd(bo.Y) || isLastElemLoad(bo.Y, isLoadPBuf) && isEnd(bo.X) {
-									if (bo.Op == token.NEQ) != truth {
-										st.lastIsEnd = true
+								for w, isL := range []func(ssa.Value) bool{isLoadPBuf, isLoadCap} {
+									if isLastElemLoad(bo.X, isL) && isEnd(bo.Y) || isLastElemLoad(bo.Y, isL) && isEnd(bo.X) {
+										if (bo.Op == token.NEQ) != truth {
+											st[w].lastIsEnd = true
+										}
 									}
 								}
 							}
@@ -319,8 +341,9 @@ func rtSentinel(a *aggregator, v *rtView) {
 					}
 				}
 			}
-			if !(st.fromBuffer && st.lastIsEnd && st.capAssigned && st.capSynced) {
-				bad = append(bad, fmt.Sprintf("path %s ends with recomputed-from-Buffer=%v sentinel-last=%v captured-buffer-synced=%v", p.String(), st.fromBuffer, st.lastIsEnd, st.capAssigned && st.capSynced))
+			okAll := assigned[0] && assigned[1] && st[0].fromBuffer && st[0].lastIsEnd && st[1].fromBuffer && st[1].lastIsEnd
+			if !okAll {
+				bad = append(bad, fmt.Sprintf("path %s ends with p.buffer{recomputed-from-Buffer=%v sentinel-last=%v} captured buffer{recomputed-from-Buffer=%v sentinel-last=%v}", p.String(), st[0].fromBuffer, st[0].lastIsEnd, assigned[1] && st[1].fromBuffer, assigned[1] && st[1].lastIsEnd))
 			}
 		}
 	}
